@@ -779,6 +779,103 @@ func genTrace(prop string, seed uint64, run int, o genOpts) *Trace {
 
 	// sweep phase (1 run in 25): one node climbs through every size class to all
 	// 256 children and back down, the only way to reach a full 256-slot node
+	if r.Intn(8) == 0 && o.domain == "main" {
+		// plateau phase: one node is filled to exactly a class capacity (or one
+		// past it), drained in a chosen order to a chosen floor, and the deleted
+		// keys are probed again — node states that only exist after a class was
+		// exactly full
+		ti := r.Intn(nT)
+		g := gts[ti]
+		if g.kt.Kind != "collation" && g.kt.Kind != "compound" {
+			peak := pick(r, []int{4, 5, 16, 16, 16, 17, 48, 48, 49, 60})
+			floor := pick(r, []int{1, 2, 3, 3, 4, 11, 12, 13, 36, 37})
+			if floor >= peak {
+				floor = 2
+			}
+			base := r.Intn(256 - peak)
+			stride := 1
+			if peak < 60 && r.Chance(1, 2) {
+				stride = max(1, 250/peak)
+				base = r.Intn(4)
+			}
+			mk := func(x int) []byte {
+				if g.kt.Kind == "alpha" {
+					return append(clone(g.fanPfx), byte(x), 'p')
+				}
+				return u64bytes(normField(g.kt.T, g.kt.Bits32, (g.bases[0]&^0xFF)|uint64(x)))
+			}
+			var xs []int
+			for i := 0; i < peak; i++ {
+				xs = append(xs, base+i*stride)
+			}
+			order := append([]int{}, xs...)
+			if r.Chance(1, 2) {
+				for i := len(order) - 1; i > 0; i-- {
+					j := r.Intn(i + 1)
+					order[i], order[j] = order[j], order[i]
+				}
+			}
+			for _, x := range order {
+				k := mk(x)
+				if g.kt.Kind == "alpha" && g.m.nulRelated(k) {
+					continue
+				}
+				s := Step{T: ti, Op: "ins", K: k, V: nextID}
+				s.Lay, s.Pad = lay(g)
+				nextID++
+				g.m.Put(k, s.V)
+				g.remember(k)
+				emit(s)
+			}
+			// drain: largest first, smallest first, or random
+			drain := append([]int{}, xs...)
+			switch r.Intn(3) {
+			case 0:
+				for i, j := 0, len(drain)-1; i < j; i, j = i+1, j-1 {
+					drain[i], drain[j] = drain[j], drain[i]
+				}
+			case 1:
+			default:
+				for i := len(drain) - 1; i > 0; i-- {
+					j := r.Intn(i + 1)
+					drain[i], drain[j] = drain[j], drain[i]
+				}
+			}
+			var gone []int
+			for _, x := range drain {
+				if g.m.Len() <= floor {
+					break
+				}
+				k := mk(x)
+				s := Step{T: ti, Op: "del", K: k}
+				s.Lay, s.Pad = lay(g)
+				if g.m.Del(k) {
+					gone = append(gone, x)
+					if len(g.deleted) < 256 {
+						g.deleted = append(g.deleted, clone(k))
+					}
+				}
+				emit(s)
+			}
+			// the deleted keys again: lookups, deletes (must report absent), some re-inserted
+			for _, x := range gone {
+				switch r.Intn(4) {
+				case 0:
+					emit(Step{T: ti, Op: "get", K: mk(x)})
+				case 1:
+					emit(Step{T: ti, Op: "del", K: mk(x)})
+				case 2:
+					k := mk(x)
+					emit(Step{T: ti, Op: "ins", K: k, V: nextID})
+					g.m.Put(k, nextID)
+					nextID++
+				}
+			}
+			emit(Step{T: ti, Op: "all"})
+			emit(Step{T: ti, Op: "max"})
+			budget += len(tr.Steps)
+		}
+	}
 	if r.Intn(25) == 0 {
 		ti := r.Intn(nT)
 		g := gts[ti]
